@@ -4,6 +4,7 @@ cd /verif
 export GOFLAGS=-mod=mod GOPROXY=off GOSUMDB=off GOTOOLCHAIN=local GOWORK=off
 PROPS=${PROPS:-C01 C02 C03 C04 C05 C06 C07 C08 C09 C10 C11 C12 C13 C14 C15 C16 C17 C18 C19 C20}
 for d in ${@:-refactors/*}; do
+  [ -f $d/patch.diff ] || continue
   n=$(basename $d)
   git -C /repo diff --quiet || { echo "/repo dirty"; exit 2; }
   git -C /repo apply /verif/$d/patch.diff || { echo "$n: patch failed"; continue; }
